@@ -1005,7 +1005,31 @@ fn crash_history(seed: u64, sc: usize, k: Option<usize>, out: Box<dyn std::io::W
             phase = 3;
         }
         pump(&mut sim, &mut env, rng, interval);
-        if sim.crashed { sim.crashed = false; env.after_crash(); }
+        if sim.crashed {
+            sim.crashed = false;
+            env.after_crash();
+            // the first thing after the restart: the peer is proven again, the filter hashes are exchanged, and a
+            // batch for the next range arrives BEFORE the filters tick has recovered the pending record (the late
+            // answer to the request sent right before the process died, or an eager peer)
+            if !sim.dead {
+                env.connect(&mut sim, 0);
+                env.send_last_state(&mut sim, 0);
+                if !sim.crashed && !sim.dead { env.refresh(&mut sim); }
+                while !sim.crashed && !sim.dead && env.answer_proof(&mut sim, 0) {}
+                if !sim.crashed && !sim.dead { env.refresh(&mut sim); }
+                for token in [2u64, 1] {
+                    if sim.crashed || sim.dead { break; }
+                    env.filter_tick(&mut sim, token, true);
+                    for _ in 0..6 {
+                        if sim.crashed || sim.dead || !env.answer_filter(&mut sim, 0, interval) { break; }
+                    }
+                }
+                if !sim.crashed && !sim.dead {
+                    env.unsolicited_filters(&mut sim, 0);
+                }
+                if sim.crashed { sim.crashed = false; env.after_crash(); }
+            }
+        }
         round += 1;
     }
     crate::verif_hooks::set(None);
